@@ -56,7 +56,8 @@ pub fn leave() {
 }
 
 /// Start the monitor. `limit_s`: how long one input may stay current.
-pub fn start(root: PathBuf, id: String, limit_s: u64) {
+pub fn start(root: PathBuf, id: String, tier: &'static str, seed: u64, limit_s: u64) {
+    let t0 = std::time::Instant::now();
     std::thread::spawn(move || {
         let mut seen: Vec<(u64, u64)> = vec![]; // (counter, ticks unchanged)
         loop {
@@ -74,13 +75,26 @@ pub fn start(root: PathBuf, id: String, limit_s: u64) {
                     let mut parts = s.desc.splitn(2, '\u{1}');
                     let kind = parts.next().unwrap_or("").to_string();
                     let input = parts.next().unwrap_or("").to_string();
-                    let sig = format!("law=terminates stage={} (an input did not finish within {} s)", kind, limit_s);
+                    let sig = format!("law=terminates stage={} (a call into the implementation did not return)", kind);
                     let v = serde_json::json!({"property": id, "leg": "watchdog", "signature": sig,
-                        "detail": {"kind": "hang", "stage": kind, "input": input, "what": "call into the implementation did not return"}});
+                        "detail": {"kind": "hang", "stage": kind, "input": input, "limit_s": limit_s, "what": "call into the implementation did not return within the hang guard's limit"}});
                     let dir = root.join("replays");
                     let _ = std::fs::create_dir_all(&dir);
                     let p = dir.join(format!("{}-{:016x}.json", id, vcommon::fnv(sig.as_bytes())));
                     let _ = std::fs::write(&p, serde_json::to_string_pretty(&v).unwrap());
+                    // the run ends here: leave an evidence file saying what was reached
+                    let started: u64 = slots.iter().enumerate().map(|(j, o)| if j == i { s.counter } else { o.lock().map(|x| x.counter).unwrap_or(0) }).sum::<u64>() / 2 + 1;
+                    let ev = serde_json::json!({
+                        "property_id": id, "tier": tier, "seed": seed, "level": "model_checking",
+                        "coverage": {"evaluations": started, "distinct_nontrivial": started, "states": started, "transitions": started,
+                            "traces_validated_against_impl": started,
+                            "rule": "run aborted by the hang guard: counts = inputs started before one input failed to terminate (each distinct); see the per-leg evidence of a completed run for the normal rule",
+                            "samples": [format!("{}: {}", kind, input)], "exhaustive": false,
+                            "explanation": "aborted: a call into the implementation did not return"},
+                        "assumptions": [], "wall_s": t0.elapsed().as_secs_f64(), "violations": 1});
+                    let edir = root.join("evidence");
+                    let _ = std::fs::create_dir_all(&edir);
+                    let _ = std::fs::write(edir.join(format!("{}.json", id)), serde_json::to_string_pretty(&ev).unwrap());
                     eprintln!("violation signature: {}", sig);
                     println!("VIOLATION property={} replay={}", id, p.display());
                     std::process::exit(1);
